@@ -112,5 +112,25 @@ CHECKS = {
         'driving pin and every reading pin and no pin of another wire. A hang is attributed to its case by a watchdog and is a violation (termination is part of the property).',
    note='Trusted: the graph checker; wires with zero or several drivers inside the block are excluded; swallowed internal exceptions are counted, the verdict comes from the resulting graph.',
    ref='DESIGN.md section 4 C18'),
+ 'C04': dict(level='exploration', engine='E1 hooks + E3 netlist generator (vlib/netgen.py)',
+   technique='invariant-at-hook monitor (fixpoint re-evaluation of every stateless leaf after construction and every clk), order-permutation twin runs, schedule checked against the plan graph, cyclic-plan rejection',
+   text='Generated netlists are built under many permutations of block and wire creation order; after construction and every clock call each stateless leaf is re-evaluated and must leave its '
+        'outputs unchanged (fixpoint), all orders must give identical wire values, Simulator.propagatables must be a topological order of the dependency graph recomputed from the plan, and plans with an '
+        'injected combinational cycle (length 1, 2, n, through wrappers) must be refused while loops through a register are accepted.',
+   note='Trusted: dependency graph recomputed from the plan; Latch, AsynchronousMemory, BidirBuf, GatedClock and Div/Mod with zero divisor are not stateless and not judged for the fixpoint clause.',
+   ref='DESIGN.md section 4 C04'),
+ 'C05': dict(level='exploration', engine='E1 hooks (event trace) + E3 netlist generator',
+   technique='online trace-specification checker over hooked Wire.put/prepare/settle and leaf clock/propagate events, plus schedule-permutation and clk-splitting twin runs',
+   text='Per clock cycle the recorded event trace must satisfy: no wire value changes in the clocking phase, every prepare is followed by a settle installing the last prepared value before any '
+        'propagate, Wire.prepared empty at cycle end, no settle without prepare. Designs with 2-7 interconnected sequential leaves are run under all/sampled permutations of the clockable lists and driver '
+        'order and under different splittings of clk(n); all must agree. Non-trivial designs are those where an immediate-write twin of Reg would be order dependent.',
+   note='Trusted: the hook wrappers call the real code first and never change its result; leaf state = scalar and list attributes.',
+   ref='DESIGN.md section 4 C05'),
+ 'C06': dict(level='exploration', engine='E1 hooks (post-conditions on every write, icontract layer when importable) + catalogue/netgen workloads',
+   technique='invariant-at-hook monitor: range/type post-condition on every Wire.put/prepare/settle event and full wire sweeps after construction, after every edge, inside listeners and inside a clockable probe',
+   text='Catalogue blocks at all widths with extreme operands, negative/oversized constants, stimulus and reset values, and random compositions are simulated with hooks on every wire write; every '
+        'reachable wire must hold an integer in [0, 2**width) at every observation point. Non-trivial cases are those where the raw argument of a write was out of range (measured by the hook).',
+   note='Trusted: the hook wrappers; the write post-condition also requires stored == argument mod 2**width; icontract ensure-conditions are an additional layer, the verdict does not depend on them.',
+   ref='DESIGN.md section 4 C06'),
 }
 PENDING = {}
